@@ -37,6 +37,21 @@ func (w poolW[T]) AllocsCycle(runs int) float64 {
 	})
 }
 
+// AllocsCycleByValue measures the same cycle through a copy of the allocator value that is passed
+// to a function by value on every run (PoolAlloc returns a value; holding and passing it by value is
+// ordinary use).
+func (w poolW[T]) AllocsCycleByValue(runs int) float64 {
+	q := *w.p
+	return testing.AllocsPerRun(runs, func() { cycleByValue(q) })
+}
+
+//go:noinline
+func cycleByValue[T signal.SignalTypes](p signal.PoolAllocator[T]) {
+	b := p.Get()
+	b.AppendSample(1)
+	p.Put(b)
+}
+
 // Striped is a [][]T prepared in advance (so that building it is not measured).
 type Striped interface{ T() int }
 
@@ -51,11 +66,15 @@ func (w stripedW[T]) T() int { return w.t }
 func NewStriped(t int, lens []int) Striped { return tops[t].newStriped(lens) }
 
 func mkStriped[T signal.SignalTypes](t int, lens []int) Striped {
-	s := make([][]T, len(lens))
+	s := make([][]T, len(lens), len(lens)+2)
 	for i, l := range lens {
 		if l >= 0 {
-			s[i] = make([]T, l)
+			s[i] = slack[T](l, t)
 		}
+	}
+	h := s[:cap(s)]
+	for i := len(lens); i < len(h); i++ {
+		h[i] = make([]T, 3)
 	}
 	return stripedW[T]{s, t}
 }
